@@ -119,10 +119,14 @@ CLAIMS = {
     "ordered, with the sum and product of the quadratic, each a root; verified against the body): a reported distance is -1 or >= 0; "
     "a reported hit lies on the cylinder side between the caps or on the outer half of a cap sphere; every point of the ray (y >= 0) on "
     "the outer half of a cap sphere is a hit and the reported distance is not beyond it (nearest-hit for the caps, from inside and "
-    "outside). The nonlinear argument is cut into identities, one abstract root lemma and structural steps, each an obligation.",
+    "outside). The nonlinear argument is cut into identities, one abstract root lemma and structural steps, each an obligation. "
+    "ray_ellipsoid, the same way (s_i * size_i^2 = 1 proved from safe_div; positive leading coefficient for a non-zero direction): a "
+    "reported hit lies on the ellipsoid, and every point of the ray (y >= 0) on it is a hit not nearer than the reported distance. "
+    "ray_cylinder: a reported hit lies on a flat face within the radius or on the round side between the faces, and every point of the "
+    "ray on a flat face within the radius is a hit not nearer than the reported distance.",
     "note": _BASE + "Exact over the reals; ray direction non-zero. NOT covered: agreement with mujoco.mj_ray (numeric oracle), nearest-hit "
     "for the capsule's cylinder side and its normal, the "
-    "ellipsoid / cylinder / box / mesh / height-field / flex intersections, the nearest-hit reduction over geoms in _ray "
+    "nearest-hit on the cylinder's round side, box / mesh / height-field / flex intersections, the normals of ellipsoid and cylinder, the nearest-hit reduction over geoms in _ray "
     "(tile reduction) and the BVH path (wp.bvh_* intrinsics), and the MJ_MINVAL slivers of _ray_quad and ray_plane.",
     "design_ref": "DESIGN.md 3 (C34), 12.12, 12.13",
   },
@@ -134,8 +138,10 @@ CLAIMS = {
     "hashed by content, sized objects used only through .size, unique factory names, no module-level mutable object read). Found and "
     "repaired: the process-global primitive-collision dispatch lists. (G4) the cache_kernel wrapper itself is exercised natively on 11 "
     "argument shapes -- a bounded stand-in, not counted as proved. (G5) bounded native probe: forward() on a fresh Data after NaN-filled "
-    "arrays were freed, three configurations; with sleeping enabled and a sparse Jacobian the result depends on the freed memory "
-    "(known finding D15, recorded, not repaired).",
+    "arrays were freed, three configurations. (G6) the obligation behind defect D15 (found by G5, repaired in /repo): _solve selects "
+    "the sparse initialisation of qfrc_constraint under exactly the condition under which _update_constraint selects the sparse "
+    "update kernels (Boolean equivalence over the real source), that initialisation zeroes worlds without active rows, and the "
+    "sparse update kernels leave such worlds untouched -- so the solver's first gradient never reads memory nothing wrote.",
     "note": _BASE + "Pure source analysis (no SMT needed: the obligations are about which objects are written / read). Warp's own module "
     "cache and CUDA graph state are external. G4 and G5 are bounded.",
     "design_ref": "DESIGN.md 3 (C36)",
@@ -199,11 +205,14 @@ CLAIMS = {
     "contract (its preconditions are obligations at the call site), emits for the element at sorted position s a range that contains "
     "every later element whose projected lower bound does not exceed the upper bound of s, and stays inside the segment; "
     "math.upper_tri_index maps {0 <= i < j < n} injectively into [0, n(n-1)/2), so the all-pairs table and the sweep's pair-id lookup "
-    "address the same entry for the same pair.",
-    "note": _BASE + "Not claimed: the work-package decode of _sap_broadphase, the bounding-volume filters and the margins they use "
+    "address the same entry for the same pair. collision_driver._aabb_filter is conservative: for ANY point of box 1 and ANY point of "
+    "box 2 (symbolic points inside the half sizes, frames arbitrary matrices), if the filter rejects the pair the two world points "
+    "differ by more than margin1 + margin2 along a world axis -- proved in steps (sign lemmas per matrix entry, corner projections "
+    "bound every box point per box and axis, conclusion).",
+    "note": _BASE + "Not claimed: the work-package decode of _sap_broadphase, the sphere / OBB / plane filters and the margins the filters use "
     "(D9, explicit pair margins ignored by the SPHERE/AABB/OBB filters, was repaired in /repo: see C19), sortedness produced by warp's sort (external), and equality of the resulting contact multisets "
     "as such.",
-    "design_ref": "DESIGN.md 3 (C18)",
+    "design_ref": "DESIGN.md 3 (C18), 12.16",
   },
   "C19": {
     "text": "The pair table: the vectorised numpy slice of io.put_model that computes Model.nxn_pairid[:, 0] (the real statements, "
